@@ -10,6 +10,21 @@ def hasMacro : Bytes → Bool
   | _ :: tl => hasMacro tl
   | [] => false
 
+/-- evaluation of an operator on an already expanded argument (used by the engine) -/
+def eval (name : String) (arg v : Bytes) : Option Bool :=
+  match name with
+  | "streq" => some (streq arg v) | "contains" => some (contains arg v)
+  | "beginsWith" => some (beginsWith arg v) | "endsWith" => some (endsWith arg v)
+  | "within" => some (within arg v) | "eq" => some (eq arg v) | "ge" => some (ge arg v)
+  | "gt" => some (gt arg v) | "le" => some (le arg v) | "lt" => some (lt arg v)
+  | "validateUrlEncoding" => some (validateUrlEncoding v)
+  | "validateUtf8Encoding" => some (validateUtf8Encoding v)
+  | "validateByteRange" => if allAscii arg then validateByteRange arg v else Option.none
+  | "pm" => if allAscii arg then some (pm arg v) else Option.none
+  | "unconditionalMatch" => some true
+  | "noMatch" => some false
+  | _ => Option.none
+
 /-- `none` = outside the modelled fragment; `some none` = factory error -/
 def run (name : String) (arg v : Bytes) : Option (Option Bool) :=
   let macroOp (f : Bytes → Bytes → Bool) : Option (Option Bool) :=
